@@ -44,7 +44,7 @@ harness!(dec_len_3, 6, {
     check_dec(3);
 });
 
-//# harness dec_boundaries tier=quick label=bounded(5-inputs) props=C10,C06 fn=rusty_parser/src/expr/integer_or_long_literal.rs::process_dec timeout=1800
+//# harness dec_boundaries tier=quick label=bounded(5-inputs) props=C10,C06,C07 fn=rusty_parser/src/expr/integer_or_long_literal.rs::process_dec timeout=1800
 harness!(dec_boundaries, 12, {
     // digit strings of 5 symbolic digits exhaust the memory of this box (std::str::parse + fmt), so the type
     // boundaries are checked on their concrete spellings
@@ -62,7 +62,7 @@ harness!(dec_boundaries, 12, {
     std::mem::forget((a, b, c, d, e));
 });
 
-//# harness hex_digit_value tier=quick label=complete props=C10 fn=rusty_parser/src/expr/integer_or_long_literal.rs::convert_hex_digit
+//# harness hex_digit_value tier=quick label=complete props=C10,C07 fn=rusty_parser/src/expr/integer_or_long_literal.rs::convert_hex_digit
 harness!(hex_digit_value, 2, {
     // every char that is a hex digit, either letter case
     let c = vs::ascii();
@@ -76,7 +76,7 @@ harness!(hex_digit_value, 2, {
     reach!(c == '0');
 });
 
-//# harness oct_digit_value tier=quick label=complete props=C10 fn=rusty_parser/src/expr/integer_or_long_literal.rs::convert_oct_digit
+//# harness oct_digit_value tier=quick label=complete props=C10,C07 fn=rusty_parser/src/expr/integer_or_long_literal.rs::convert_oct_digit
 harness!(oct_digit_value, 2, {
     let c = vs::ascii();
     vs::assume('0' <= c && c <= '7');
@@ -85,7 +85,7 @@ harness!(oct_digit_value, 2, {
     reach!(c == '7');
 });
 
-//# harness bitvec_to_expression tier=quick label=complete props=C10 fn=rusty_parser/src/expr/integer_or_long_literal.rs::create_expression_from_bit_vec
+//# harness bitvec_to_expression tier=quick label=complete props=C10,C07 fn=rusty_parser/src/expr/integer_or_long_literal.rs::create_expression_from_bit_vec
 harness!(bitvec_to_expression, 40, {
     // the glue between rusty_bit_vec (unit radix_literal) and the literal node: Int -> IntegerLiteral,
     // Long -> LongLiteral, OverflowError -> ParserError::Overflow.  Digit counts are concrete (4, 5, 9 hex digits).
